@@ -84,7 +84,11 @@ AInit == [layers |-> <<>>, pending |-> ""]
 ArchMethods == {"with_layer", "layer", "containing_modules", "have_modules_with_names_matching"}
 
 LayerNames(a) == {a.layers[i].name : i \in DOMAIN a.layers} \cup (IF a.pending = "" THEN {} ELSE {a.pending})
-Assigned(a)   == UNION {SeqToSet(a.layers[i].items) : i \in DOMAIN a.layers}
+\* module NAMES supplied so far (containing_modules).  The text of a regex layer is not a module name: C16 speaks of
+\* names "passed as a string or inside a list", so whether a name that coincides with the text of an earlier regex
+\* layer is rejected is left open (the library rejects it, but accepts the two calls in the other order) - RegexTexts
+Assigned(a)   == UNION {SeqToSet(a.layers[i].items) : i \in {i \in DOMAIN a.layers : a.layers[i].kind = "names"}}
+RegexTexts(a) == UNION {SeqToSet(a.layers[i].items) : i \in {i \in DOMAIN a.layers : a.layers[i].kind = "regex"}}
 
 \* c.names : the module names passed, in order, whatever Python type carried them (str or list)
 ArchStep(a, c) ==
@@ -98,7 +102,8 @@ ArchStep(a, c) ==
             \* accepted or rejected is left open)
             ELSE IF c.names = <<>> THEN [state |-> a, out |-> "either"]
             ELSE [state |-> [layers |-> Append(a.layers, [name |-> a.pending, kind |-> "names", items |-> c.names]),
-                             pending |-> ""], out |-> "ok"]
+                             pending |-> ""],
+                  out |-> IF SeqToSet(c.names) \cap RegexTexts(a) # {} THEN "either" ELSE "ok"]
       [] c.m = "have_modules_with_names_matching" ->
             IF a.pending = "" THEN [state |-> a, out |-> "error"]
             ELSE [state |-> [layers |-> Append(a.layers, [name |-> a.pending, kind |-> "regex", items |-> <<c.regex>>]),
